@@ -9,7 +9,7 @@ from common import text, U
 
 EXTRA_COQ_FILES = ('GenFacts/ConstantsOK.v',)
 RULE = ('frames of 1..4 channels over the 8 dtypes x byte order {<,>} x scalar/width {1,2,3,7,>capacity} x layout {C,F,strided,'
-        'read-only,view} x optional cast x rows 1..9 x source kind {inline, dict, structured array} x input chunk {None,1,2,3} x '
+        'read-only,view} x optional cast x rows 1..9 x source kind {inline, dict, structured array (packed / padded), HDF5} x input chunk {None,1,2,3} x '
         'record length {32..16384}, random bit patterns incl. NaN payloads, infinities, signed zeros, integer extremes. '
         'Distinct by (dtype, order, width, layout, cast, rows, source kind).')
 ASSUMPTIONS = ['numpy astype/tobytes (the cast and the byte-order conversion) are trusted; signalling NaNs are quieted by the generator',
@@ -20,7 +20,7 @@ PARTIAL = ''
 def build_case(rng, k):
     from dliswriter import DLISFile
     vrl = rng.choice([32, 64, 128, 1024, 8192, 16384])
-    kind = rng.choice(['inline', 'dict', 'struct', 'struct_padded'])
+    kind = rng.choice(['inline', 'dict', 'struct', 'struct_padded', 'hdf5'])
     rows = rng.randrange(1, 10)
     nch = rng.randrange(1, 5)
     chans = []
@@ -59,6 +59,12 @@ def build_case(rng, k):
             data = np.zeros(rows, dtype=np.dtype(fields))
         for c in chans:
             data[c['name']] = arrays[c['name']]
+    elif kind == 'hdf5':
+        import h5py
+        data = impl.tmp_path('.h5')
+        with h5py.File(data, 'w') as h:
+            for c in chans:
+                h.create_dataset(c['name'], data=arrays[c['name']])
     return {'vrl': vrl, 'kind': kind, 'rows': rows, 'chans': chans, 'origin': org, 'frame': fname,
             'in_chunk': rng.choice([None, 1, 2, 3])}, df, data
 
@@ -71,6 +77,13 @@ def run(ctx):
     for k in range(n):
         spec, df, data = build_case(rng, k)
         o = impl.outcome(lambda: impl.write_real(df, in_chunk=spec['in_chunk'], data=data))
+        if isinstance(data, str):
+            import gc
+            import os
+            gc.collect()
+            if os.path.exists(data):
+                os.remove(data)
+            data = None
         key = tuple((c['dtype'], c['order'], c['width'], c['layout'], c['cast']) for c in spec['chans']) + (spec['rows'], spec['kind'])
         ctx.count('K-fdata', key=key)
         ctx.stat('K-fdata', 'kind_' + spec['kind'])
